@@ -12,8 +12,8 @@ CONSTANTS
   PersistMkdir = TRUE
   LoaderExact = TRUE
   RefreshTemp = "leave"
-  Faults = {}
-  Cleanup = "temp"
-INIT InitR
-NEXT NextR
+  Faults = {"write"}
+  Cleanup = "local"
+SPECIFICATION SpecR
+PROPERTIES PreviousFileKept
 CHECK_DEADLOCK FALSE
